@@ -141,7 +141,12 @@ def gen_opts(rng, case, nb):
     o["shuffle"] = o["ensure_sorted"] and rng.random() < 0.8
     o["perm_seed"] = rng.randrange(10 ** 6)
     if not o["symm"]:
-        o["flags"]["triucheck"] = False
+        # square storage: lower-triangle pixels are legitimate whatever triucheck says (default, True or False)
+        tc = rng.choice(["default", True, False])
+        if tc == "default":
+            o["flags"].pop("triucheck", None)
+        else:
+            o["flags"]["triucheck"] = tc
     for n, c in case["cells"].items():
         px = {}
         for (i, j, v) in c["pixels"]:
@@ -420,6 +425,8 @@ def _attrs(o):
 # ------------------------------------------------------------------ oracle
 def oracle(case, r):
     bad = []
+    if case.get("expect_refusal"):
+        return [] if r["outcome"] != "Ok" else [{"what": "pixels below the diagonal were accepted for symmetric-upper storage"}]
     if r["outcome"] != "Ok":
         return [{"what": "create_scool raised", "outcome": r["outcome"]}]
     names = case["order"]
@@ -696,6 +703,19 @@ def run(ctx):
     os.makedirs(d, exist_ok=True)
     cases = [(c, "corpus") for c in corpus()]
     import copy
+    for symm in (False, True):
+        for tc in ("default", True, False):
+            for lower in (False, True):
+                if symm and lower and tc is False:
+                    continue                      # upper storage with the check switched off: not a documented combination
+                cs = copy.deepcopy(CORPUS_SORT)
+                cs["opts"].update({"symm": symm, "shuffle": False, "ensure_sorted": False, "flags": {} if tc == "default" else {"triucheck": tc}})
+                if lower:
+                    cs["cells"]["u1"]["pixels"] = sorted([(0, 1, 1), (3, 0, 2), (1, 1, 3), (4, 2, 4), (3, 3, 5), (2, 4, 6)])
+                    cs["cells"]["u2"]["pixels"] = sorted([(4, 0, 7), (1, 2, 1), (2, 1, 9)])
+                if symm and lower:
+                    cs["expect_refusal"] = True   # symmetric-upper storage must refuse pixels below the diagonal
+                cases.append((cs, "corpus"))
     for spelling in ("dtypes", "dtype"):
         for form in ("full", "partial"):
             for cd, extra in (("float64", None), ("float64", ["score", "int32"]), ("int64", ["w2", "float64"]), ("default", ["score", "int32"])):
